@@ -20,7 +20,7 @@ Three ties to the source, all on REAL output of `nutils.evaluable.compile`:
 """
 import base64, pickle, numpy, collections, itertools, json, ast, re, threading, time, warnings
 from nutils import evaluable as ev, types, parallel, _util
-from . import genexpr, ser, shrink, exprcheck as X
+from . import genexpr, ser, shrink, exprcheck as X, c02_enum
 from .common import Infra
 
 warnings.simplefilter('ignore')
@@ -35,11 +35,14 @@ class _Sentinel:
     """numpy / parallel stand-ins handed to the generated function: identical to the real modules except that
     freshly allocated `empty` arrays are filled with a sentinel (nan / large int / True)."""
 
-    def __init__(self, mod, names):
+    def __init__(self, mod, names, overrides=None):
         self._mod = mod
         self._names = names
+        self._overrides = overrides or {}
 
     def __getattr__(self, name):
+        if name in self._overrides:
+            return self._overrides[name]
         v = getattr(self._mod, name)
         if name in self._names:
             def alloc(shape, *a, **kw):
@@ -60,10 +63,11 @@ class _Sentinel:
 class Capture:
     """wraps nutils._util.function (== evaluable.util.function) in the harness process; records every script"""
 
-    def __init__(self, sentinel=True):
+    def __init__(self, sentinel=True, sched='free'):
         self.scripts = []
         self.globals = []
         self.sentinel = sentinel
+        self.sched = sched
 
     def __enter__(self):
         self._orig = _util.function
@@ -74,6 +78,10 @@ class Capture:
             if self.sentinel:
                 if 'numpy' in g: g['numpy'] = _Sentinel(g['numpy'], ('empty',))
                 if 'parallel' in g: g['parallel'] = _Sentinel(g['parallel'], ('shempty',))
+            if self.sched == 'starved' and 'parallel' in g:
+                # adversarial but legal schedule of the forked outer loops: the parent takes no iteration before the children are done
+                from . import c02_enum
+                g['parallel'] = _Sentinel(globals['parallel'], ('shempty',) if self.sentinel else (), dict(ctxrange=c02_enum.starved_ctxrange(globals['parallel'])))
             return self._orig(script, g)
         _util.function = function
         assert ev.util is _util
@@ -85,7 +93,7 @@ class Capture:
 
 # ======================================================================================= configurations
 
-Config = collections.namedtuple('Config', 'simplify optimize cache stats maxprocs')
+Config = collections.namedtuple('Config', 'simplify optimize cache stats maxprocs sched', defaults=('free',))
 STATS = (None, False, 'log')
 
 
@@ -94,7 +102,7 @@ def all_configs():
 
 
 def cfg_name(cfg):
-    return 's%d-o%d-c%d-%s-p%d' % (cfg.simplify, cfg.optimize, cfg.cache, {None: 'none', False: 'off', 'log': 'log'}[cfg.stats], cfg.maxprocs)
+    return 's%d-o%d-c%d-%s-p%d%s' % (cfg.simplify, cfg.optimize, cfg.cache, {None: 'none', False: 'off', 'log': 'log'}[cfg.stats], cfg.maxprocs, '' if cfg.sched == 'free' else '-' + cfg.sched)
 
 
 BASE = Config(False, False, False, False, 1)
@@ -104,7 +112,7 @@ def run_config(funcs, args_list, cfg, timeout=30, sentinel=True):
     """compile `funcs` (array or nested tuple) with the real compile() and call it on every args of args_list.
     returns (kind, values, scripts, globals): kind 'ok' -> values = list of results; 'exception'/'hang' -> values = exc"""
     import treelog
-    with Capture(sentinel) as cap:
+    with Capture(sentinel, cfg.sched) as cap:
         def go():
             with treelog.set(treelog.NullLog()), parallel.maxprocs(cfg.maxprocs), numpy.errstate(all='ignore'):
                 f = ev.compile(funcs, stats=cfg.stats, cache_const_intermediates=cfg.cache, _simplify=cfg.simplify, _optimize=cfg.optimize)
@@ -846,13 +854,14 @@ def random_programs(rng, n, maxdepth):
 
 
 def flags_of(cfg):
-    fl = [n for n, on in (('simplify', cfg.simplify), ('optimize', cfg.optimize), ('cache', cfg.cache), ('stats-log', cfg.stats == 'log'), ('stats-none', cfg.stats is None), ('maxprocs2', cfg.maxprocs == 2)) if on]
+    fl = [n for n, on in (('simplify', cfg.simplify), ('optimize', cfg.optimize), ('cache', cfg.cache), ('stats-log', cfg.stats == 'log'), ('stats-none', cfg.stats is None), ('maxprocs2', cfg.maxprocs > 1)) if on]
     return fl
 
 
-def single_flag_configs():
+def single_flag_configs(cfg=None):
+    par = BASE._replace(maxprocs=2) if cfg is None or cfg.maxprocs == 1 else BASE._replace(maxprocs=cfg.maxprocs, sched=cfg.sched)
     return {'simplify': BASE._replace(simplify=True), 'optimize': BASE._replace(optimize=True), 'cache': BASE._replace(cache=True),
-            'stats-log': BASE._replace(stats='log'), 'stats-none': BASE._replace(stats=None), 'maxprocs2': BASE._replace(maxprocs=2)}
+            'stats-log': BASE._replace(stats='log'), 'stats-none': BASE._replace(stats=None), 'maxprocs2': par}
 
 
 def has_separated_assemble(funcs, simplify):
@@ -893,11 +902,11 @@ def signature_for(c, name, funcs, args_list, cfg, verdict, detail, lean):
         cfgclass = 'base'
         failing = BASE
     else:
-        for flag, cf in single_flag_configs().items():
+        for flag, cf in single_flag_configs(cfg).items():
             if flag in flags_of(cfg) and evaluate_program(funcs, args_list, cf, lean)[0] != 'ok':
                 needed.append(flag)
         cfgclass = '+'.join(needed) if needed else cfg_name(cfg)
-        failing = cfg if not needed else single_flag_configs()[needed[0]]
+        failing = cfg if not needed else single_flag_configs(cfg)[needed[0]]
     fmt, flat = flatten(funcs)
     small, sargs = funcs, args_list[0]
     skeleton = '+'.join(sorted({x for e in flat for x in shrink.skeleton(e).split('+') if x}))
@@ -915,7 +924,7 @@ def signature_for(c, name, funcs, args_list, cfg, verdict, detail, lean):
         for e in flat:
             try:
                 if fails(e, args_list[0]):
-                    small, sargs = shrink.shrink(e, args_list[0], fails, budget=50)
+                    small, sargs = shrink.shrink(e, args_list[0], fails, budget=50 if failing.maxprocs == 1 else 10)
                     skeleton = shrink.skeleton(small)
                     break
             except Exception:
@@ -1498,14 +1507,18 @@ def run(c):
         'maxprocs=2 is compared for its result only (fork based); scheduling is the subject of C16',
         'compileCore (verified model) covers {leaf, Add, Inflate/Assemble, Transpose, LoopSum} without statement hoisting; its tie to the real scripts is a comparison of accumulator traces',
         'Lean evaluator parametricity (symbolic "same" => equal for all real arguments) relies on Props/Poly']
-    broken = c.build_and_audit()
-    quick = c.tier == 'quick'
-    counts = collections.Counter()
+    # the systematic streams run in worker processes from the very start (forked before this process has threads or
+    # instrumentation); they are collected, and their candidates decided by the specification oracle, at the end
+    streams = c02_enum.Streams(c)
     hits = Hits()
-    hits.__enter__()
     try:
-        _run(c, quick, counts, hits, broken)
+        broken = c.build_and_audit()
+        quick = c.tier == 'quick'
+        counts = collections.Counter()
+        hits.__enter__()
+        _run(c, quick, counts, hits, broken, streams)
     finally:
+        streams.close()
         hits.__exit__()
 
 
@@ -1528,7 +1541,104 @@ def compare_run(funcs, kind, val, lean):
     return 'ok', ''
 
 
-def _run(c, quick, counts, hits, broken):
+def simplifier_alone(funcs, args_list, lean):
+    """is a deviation under `_simplify=True` already present in the simplified tree itself (compiled without any further
+    rewriting), or does simplification not return?  Then the subject is C01 (simplification preserves the value), not the
+    translation."""
+    fmt, flat = flatten(funcs)
+    kind, simp = X.guarded(lambda: [e.simplified for e in flat], 20)
+    if kind != 'ok':
+        return 'simplification %s' % ('does not return' if kind == 'hang' else 'raises %r' % (simp,))
+    it = iter(simp)
+    def rebuild(f):
+        return tuple(rebuild(x) for x in f) if isinstance(f, tuple) else next(it)
+    sfuncs = rebuild(fmt)
+    verdict, detail, _ = evaluate_program(sfuncs, args_list, BASE, lean)
+    return 'the simplified tree itself (compiled without rewriting): %s %s' % (verdict, detail) if verdict != 'ok' else None
+
+
+def stream_verdicts(c, streams, counts):
+    """collect the worker streams; decide their candidates with the specification oracle"""
+    quick = c.tier == 'quick'
+    try:
+        results = streams.collect(150 if quick else 1500)
+    except Exception as ex:
+        raise Infra('the worker streams did not finish: %r' % (ex,))
+    cands = []
+    tot = collections.Counter()
+    for kind, cnt, cs in results:
+        if kind == 'crash':
+            raise Infra('a stream worker crashed: %s' % json.dumps(cs)[:1500])
+        for k, v in cnt.items():
+            tot['%s:%s' % (kind, k)] += v
+        cands += cs
+    for k, v in tot.items(): counts['stream:' + k] += v
+    c.evaluations += tot['enum:trees'] + tot['par:par-runs'] + tot['enum:static-scripts'] + tot['par:static-scripts']
+    c.traces += tot['enum:runs'] + tot['par:par-runs']
+    c.extra['stream_totals'] = dict(tot)
+    c.log('streams: %d operator-sequence trees (%d distinct sequences summed over workers, %d compile+run, %d core incomplete), %d parallel executions of %d programs, %d parallel scripts checked statically; %d candidates' % (
+        tot['enum:trees'], tot['enum:distinct-sequences'], tot['enum:runs'], sum(v for k, v in tot.items() if k.startswith('enum:core-incomplete')), tot['par:par-runs'], tot['par:par-programs'],
+        tot['enum:static-scripts'] + tot['par:static-scripts'], len(cands)))
+    # one candidate per (stream, kind, configuration flags, leading operators): bounded work
+    chosen, seen = [], set()
+    for cd in cands:
+        key = (cd['theme'] in 'P', cd['kind'].split(':')[0], tuple(cd['cfg'][:2]), cd['cfg'][4] > 1, '-'.join(cd['seq'].split('-')[-2:]) if cd['theme'] != 'P' else cd['seq'].split(':')[-1])
+        if key in seen: continue
+        seen.add(key); chosen.append(cd)
+    chosen = chosen[:6 if quick else 20]
+    unpacked = [c02_enum.unpack(cd['packed']) for cd in chosen]
+    items = []
+    for funcs, args_list in unpacked:
+        flat = flatten(funcs)[1]
+        items += [(flat, args_list[0]), (flat, args_list[1])]
+    lean = lean_eval(c, items) if items else []
+    nbad = {'enum': 0, 'par': 0, 'static': 0}
+    for k, (cd, (funcs, args_list)) in enumerate(zip(chosen, unpacked)):
+        cfg = Config(*cd['cfg'])
+        stream = 'static' if cd['kind'].startswith('static:') else 'par' if cd['theme'] == 'P' else 'enum'
+        what = '%s %s' % (cd['theme'], cd['seq'])
+        ll = [lean[2*k], lean[2*k+1]]
+        st = 'not-serialisable' if ll[0] is None or ll[1] is None else spec_status(ll[0]) if spec_status(ll[0]) != 'ok' else spec_status(ll[1])
+        replay = dict(stream=stream, program=what, config=cfg_name(cfg), differential=cd['kind'], original=describe_funcs(funcs, args_list[0]), pickled=pack(funcs, args_list))
+        if st != 'ok':
+            counts['stream:candidate-spec-' + st] += 1
+            nbad[stream] += 1
+            c.broken_no_input('stream:%s-undecided' % stream, 'the real code deviates from its own un-rewritten serial compilation (%s under %s) but the specification evaluator has no value for the tree (%s)' % (cd['kind'], cfg_name(cfg), st), replay)
+            continue
+        al = args_list if cfg.cache else args_list[:1]
+        lc = ll if cfg.cache else ll[:1]
+        verdict, detail, scripts = evaluate_program(funcs, al, cfg, lc)
+        if verdict == 'ok':
+            vb, db, _ = evaluate_program(funcs, al, BASE, lc)
+            if vb != 'ok':
+                verdict, detail, cfg = vb, db, BASE
+            elif stream == 'static':
+                nbad[stream] += 1
+                c.broken_no_input('xscript:parallel-' + cd['kind'].split(':', 1)[1], 'a script whose outer loops are forked keeps an accumulator in private memory / accumulates without lock; no wrong value under the schedules tried', dict(replay, script=scripts[-1] if scripts else None))
+                continue
+            else:
+                counts['stream:candidate-not-reproduced'] += 1
+                continue
+        if cfg.simplify:
+            why = simplifier_alone(funcs, al, lc)
+            if why:
+                counts['stream:simplifier-deviation(C01)'] += 1
+                c.extra.setdefault('simplifier_deviations_seen', []).append(dict(program=what, why=why, tree=describe_funcs(funcs, args_list[0])['trees'], pickled=pack(funcs, args_list)))
+                c.log('note: %s under %s deviates because of simplification alone (%s): subject of C01, not a verdict of this check' % (what, cfg_name(cfg), why[:120]))
+                continue
+        nbad[stream] += 1
+        sig, small, sargs, failing = signature_for(c, what, funcs, al, cfg, verdict, detail, lc)
+        c.failing_input(sig, 'compiled function (%s) %s: %s [%s stream: %s]' % (cfg_name(cfg), 'returns a value that differs from what the expression denotes' if verdict == 'mismatch' else 'raises', detail, stream, what),
+                        dict(replay, failing_config=cfg_name(failing), detail=detail, minimal=describe_funcs(small, sargs), pickled=pack(small, [sargs]), script=(scripts[-1] if scripts else None)))
+    c.obligation('stream:operator-sequences', nbad['enum'] == 0 and tot['enum:trees'] > 0, 'validation',
+                 '%d trees of the operator-sequence enumeration (%d compile+run): the optimised / simplified+optimised compilations equal the un-rewritten one' % (tot['enum:trees'], tot['enum:runs']))
+    c.obligation('stream:parallel-starved-parent', nbad['par'] == 0 and tot['par:par-runs'] > 0, 'validation',
+                 '%d executions with forked outer loops in which the parent takes no iteration equal the serial un-rewritten compilation' % tot['par:par-runs'])
+    c.obligation('static:parallel-accumulators-shared', nbad['static'] == 0 and tot['enum:static-scripts'] + tot['par:static-scripts'] > 0, 'validation',
+                 '%d scripts with forked loops: every accumulator written inside a forked loop and read after it is in shared memory and accumulated under its lock' % (tot['enum:static-scripts'] + tot['par:static-scripts']))
+
+
+def _run(c, quick, counts, hits, broken, streams):
     rng = c.rng
     # =============================================================== phase A: the real code (no Lean)
     # ---- 0. deterministic Assemble stream
@@ -1587,6 +1697,23 @@ def _run(c, quick, counts, hits, broken):
                 scripts_seen[scripts[-1]] = (p, cfg)
     c.log('%d real compile+run: %.1fs' % (len(runs), time.time() - t0))
 
+    # ---- 2b. every program with loops: the script with forked outer loops (compile only), checked statically
+    static_flagged = []
+    t0 = time.time()
+    for pi, p in enumerate(programs):
+        if not has_loop(p.funcs):
+            continue
+        pcfg = Config(rng.random() < .5, rng.random() < .5, rng.random() < .25, False, 2, 'starved')
+        kind, scripts = c02_enum.compile_only(p.funcs, pcfg)
+        if kind != 'ok' or not scripts:
+            continue      # raising compilations are the subject of M-eval
+        counts['static:parallel-scripts'] += 1
+        counts['static:shared-allocations'] += scripts[-1].count('parallel.shempty')
+        prob = c02_enum.parallel_static(scripts[-1])
+        if prob:
+            static_flagged.append((pi, pcfg, prob, scripts[-1]))
+    c.log('%d scripts with forked outer loops checked statically: %.1fs' % (counts['static:parallel-scripts'], time.time() - t0))
+
     # ---- 3. V-opt pairs
     pairs, tags = [], []
     fired = collections.Counter()
@@ -1623,6 +1750,13 @@ def _run(c, quick, counts, hits, broken):
                 if o is sx:
                     counts['vopt:unchanged'] += 1; continue
                 pairs.append((sx, o, p.args)); tags.append(('program:%s:simplified=%d' % (p.name, simp), sx, o, p.args)); nprog_pairs += 1
+    for name, e, eargs in c02_enum.sample_trees(rng, 24 if quick else 250):
+        kind, o = X.guarded(lambda: apply_opt(e), 20)
+        if kind == 'exception':
+            c.failing_input('optimize-raises:' + shrink.skeleton(e), 'the optimisation pass raises %r' % (o,), dict(expr=X.describe(e, eargs), pickled=pack(e, [eargs])))
+        if kind != 'ok' or o is e:
+            continue
+        pairs.append((e, o, eargs)); tags.append(('sequence:' + name, e, o, eargs)); counts['vopt:sequence-instances'] += 1
     vopt_reqs, vopt_index = vopt_requests(pairs)
 
     # ---- 4. scripts -> statement language
@@ -1761,6 +1895,23 @@ def _run(c, quick, counts, hits, broken):
         c.failing_input(sig, 'compiled function (%s) %s: %s' % (cfg_name(cfg), 'returns a value that differs from what the expression denotes' if verdict == 'mismatch' else 'raises', detail),
                         dict(program=p.name, config=cfg_name(cfg), failing_config=cfg_name(failing), detail=detail, minimal=describe_funcs(small, sargs),
                              original=describe_funcs(p.funcs, p.args), pickled=pack(small, [sargs]), script=(scripts[-1] if scripts else None)))
+    # ---- static rule on the forked scripts of the programs: search for a failing input under the starved-parent schedule
+    for pi, pcfg, prob, script in static_flagged[:3]:
+        p = programs[pi]
+        replay = dict(program=p.name, config=cfg_name(pcfg), problems=[list(x) for x in prob], script=script, original=describe_funcs(p.funcs, p.args), pickled=pack(p.funcs, [p.args]))
+        verdict = 'ok'
+        if pi in usable:
+            ll = list(usable[pi]) if pcfg.cache else [usable[pi][0]]
+            al = [p.args, p.args2] if pcfg.cache else [p.args]
+            verdict, detail, _ = evaluate_program(p.funcs, al, pcfg, ll)
+        if verdict != 'ok':
+            sig, small, sargs, failing = signature_for(c, p.name, p.funcs, al, pcfg, verdict, detail, ll)
+            c.failing_input(sig, 'compiled function (%s) %s: %s [accumulator %s of a forked loop is not in shared memory]' % (cfg_name(pcfg), 'returns a value that differs from what the expression denotes' if verdict == 'mismatch' else 'raises', detail, prob[0][1]),
+                            dict(replay, failing_config=cfg_name(failing), detail=detail, minimal=describe_funcs(small, sargs), pickled=pack(small, [sargs])))
+        else:
+            c.broken_no_input('xscript:parallel-' + prob[0][0], 'a script whose outer loops are forked keeps an accumulator in private memory / accumulates without lock; no wrong value under the schedules tried', replay)
+    c.obligation('static:parallel-accumulators-shared:programs', not static_flagged and counts['static:parallel-scripts'] > 0, 'validation',
+                 '%d scripts with forked outer loops (every program with loops): accumulators of forked loops are shared and locked' % counts['static:parallel-scripts'])
     c.extra['configurations_checked'] = dict(checked)
     c.extra['mismatching_program_configurations'] = nmis
     c.obligation('oracle:compiled-equals-denotation', nmis == 0 and counts['meval:ok'] > 0, 'validation',
@@ -1875,6 +2026,9 @@ def _run(c, quick, counts, hits, broken):
             c.broken_no_input('corr:compileCore-exec', 'executing the script of compileCore in the Lean statement semantics does not give the model denotation / the instance is not well-formed', dict(expr=root['j'], model=a, real=real))
     c.obligation('corr:compileCore-exec', nex == sum(1 for r in core_real if r[0] == 'ok') and nex > 0, 'correspondence',
                  '%d sub-language programs: execL(compileCore e) = eval e = value of the real compiled function (integers, exact)' % nex)
+
+    # ---- systematic streams (worker processes)
+    stream_verdicts(c, streams, counts)
 
     # ---- evidence
     table = {k: hits.n.get(k, 0) for k in EXPECTED_BRANCHES}
